@@ -19,7 +19,7 @@ Theorem fetch_one_table s o id a :
              else match fn with Some n => RName n | None => RHandle [] end) /\
   (need = false -> s' = s) /\
   (need = true -> let c := {| gap := c_pend s; eps := a_eps a; dur := a_dur a |} in
-       c_rate s' = step (limit (o_key o)) window (c_rate s) c /\ c_pend s' = 0 /\ c_calls s' = (o_key o, c) :: c_calls s /\
+       c_rate s' = stepF (limit (o_key o)) window (c_rate s) c /\ c_pend s' = 0 /\ c_calls s' = (o_key o, c) :: c_calls s /\
        e_start e = hd 0 (hist (c_rate s')) /\ e_slept e = hd 0 (slept (c_rate s'))).
 Proof.
   intros fn need s' e. subst s' e need fn. unfold fetch_one.
@@ -325,7 +325,7 @@ Section Tie.
 Variable K : bool -> Prop.
 
 Definition cl_ok (s : cl) : Prop :=
-  c_rate s = run2 (rev (c_calls s)) /\ Forall (fun kc => call_ok (snd kc) /\ K (fst kc)) (c_calls s) /\ 0 <= c_pend s.
+  c_rate s = runF (rev (c_calls s)) /\ Forall (fun kc => call_ok (snd kc) /\ K (fst kc)) (c_calls s) /\ 0 <= c_pend s.
 
 Definition attempt_ok (a : attempt) : Prop := 0 <= a_eps a /\ 0 <= a_dur a.
 
@@ -335,7 +335,7 @@ Proof.
   destruct (fetch_one_table s o id a) as (_ & _ & _ & _ & _ & _ & _ & Hsame & Hneed).
   destruct (need_request (c_fs s) (cache_name o id) (o_ow o)).
   - destruct (Hneed eq_refl) as (H1 & H2 & H3 & _). unfold cl_ok. rewrite H1, H2, H3. split; [|split].
-    + simpl. unfold run2. rewrite fold_left_app. simpl. unfold rstep at 1. simpl. rewrite Hr. reflexivity.
+    + simpl. unfold runF. rewrite fold_left_app. simpl. unfold rstepF at 1. simpl. rewrite Hr. reflexivity.
     + constructor; [|exact Hc]. simpl. split; [|exact HK]. unfold call_ok. simpl. lia.
     + lia.
   - rewrite (Hsame eq_refl). split; [|split]; assumption.
@@ -388,7 +388,7 @@ Proof.
   intros H. rewrite forallb_forall in H.
   assert (Hops: Forall (op_ok (fun _ => True)) ops) by (apply Forall_forall; intros o Ho; apply okb_ok, H, Ho).
   destruct (do_ops_ok (fun _ => True) ops (cl_init f) Hops (cl_init_ok _ f)) as (Hr & Hc & _).
-  rewrite Hr. apply window_limit_mixed. apply Forall_rev. eapply Forall_impl; [|exact Hc]. simpl. tauto.
+  rewrite Hr. apply window_limit_any_key_F. apply Forall_rev. eapply Forall_impl; [|exact Hc]. simpl. tauto.
 Qed.
 
 Lemma all_key_map key (l : list (bool * call)) : Forall (fun kc => call_ok (snd kc) /\ fst kc = key) l ->
@@ -408,12 +408,10 @@ Proof.
   destruct (do_ops_ok (fun k => k = key) ops (cl_init f) Hops (cl_init_ok _ f)) as (Hr & Hc & _).
   rewrite Hr.
   apply Forall_rev in Hc. destruct (all_key_map key _ Hc) as (E & Hok).
-  rewrite E, run2_const. apply shipped_window_limit. exact Hok.
+  rewrite E, (runF_const key _ Hok). apply shipped_window_limit. exact Hok.
 Qed.
 
 (* ---- the start times the events report are the limiter's history ---- *)
-Lemma hist_step N W s c : hist (step N W s c) = hd 0 (hist (step N W s c)) :: hist s.
-Proof. unfold step. destruct (wait N W (dq s) (now s + gap c) (eps c)) as [[d' t'] sl]. reflexivity. Qed.
 
 Definition starts_of (es : list ev) : list Z := map e_start (filter e_req es).
 Lemma starts_of_app a b : starts_of (a ++ b) = starts_of a ++ starts_of b.
@@ -428,7 +426,7 @@ Proof.
   intros s' e. destruct (fetch_one_table s o id a) as (Hreq & _ & _ & _ & _ & _ & _ & Hsame & Hneed).
   fold s' e in Hreq, Hsame, Hneed. rewrite Hreq.
   destruct (need_request (c_fs s) (cache_name o id) (o_ow o)).
-  - destruct (Hneed eq_refl) as (H1 & _ & _ & H4 & _). simpl. rewrite H4, H1. apply hist_step.
+  - destruct (Hneed eq_refl) as (H1 & _ & _ & H4 & _). simpl. rewrite H4, H1. apply hist_stepF.
   - rewrite (Hsame eq_refl). reflexivity.
 Qed.
 
@@ -481,6 +479,44 @@ Proof. intros H. rewrite client_starts, count_rev. apply client_window_limit. ex
 Theorem client_starts_window_const key f ops x : forallb op_okb ops = true -> Forall (fun o => o_key o = key) ops ->
   (count_in_window window x (starts_of (concat (snd (do_ops (cl_init f) ops)))) <= limit key)%nat.
 Proof. intros H Hk. rewrite client_starts, count_rev. apply client_window_limit_const; assumption. Qed.
+
+(* ---- the deque never shrinks (why removing the key does not bring the limit back down) ---- *)
+Theorem deque_never_shrinks N W s c : (0 < N)%nat ->
+  (length (dq s) <= length (dq (step N W s c)))%nat /\ (length (dq (step N W s c)) <= max (length (dq s)) N)%nat.
+Proof.
+  intros HN. unfold step, wait.
+  destruct (N <=? length (dq s))%nat eqn:F.
+  - apply Nat.leb_le in F. destruct (dq s) as [|prev rest] eqn:E; [simpl in F; lia|].
+    destruct (now s + gap c - prev <? W); cbn [dq]; rewrite app_length; simpl length in *; split; try lia; try (apply Nat.max_case_strong; intros; lia).
+  - apply Nat.leb_gt in F. cbn [dq]. rewrite app_length. simpl length. split; try lia; try (apply Nat.max_case_strong; intros; lia).
+Qed.
+
+(* ---- a request of the client sleeps iff its limiter call does: popleft branch and the popped stamp younger than the window ---- *)
+Lemma slept_stepF N W s c :
+  hd 0 (slept (stepF N W s c)) = snd (wait N W (dq (trim N s)) (now s + gap c) (eps c)).
+Proof. unfold stepF, step. cbn [now trim]. destruct (wait N W (dq (trim N s)) (now s + gap c) (eps c)) as [[d' t'] sl]. reflexivity. Qed.
+
+(* a request of the client sleeps iff, after trimming the record to the last N stamps (N the limit of this call's key), there are
+   N of them and the oldest is younger than the window *)
+Theorem client_sleep_iff s o id a : 0 <= a_eps a ->
+  need_request (c_fs s) (cache_name o id) (o_ow o) = true ->
+  let e := snd (fetch_one s o id a) in let t := now (c_rate s) + c_pend s in
+  let d := dq (trim (limit (o_key o)) (c_rate s)) in
+  e_slept e <> 0 <-> (limit (o_key o) <= length d)%nat /\ exists prev rest, d = prev :: rest /\ t - prev < window.
+Proof.
+  intros He Hn e t d. destruct (fetch_one_table s o id a) as (_ & _ & _ & _ & _ & _ & _ & _ & Hneed).
+  destruct (Hneed Hn) as (H1 & _ & _ & _ & H5). fold e in H5. rewrite H5, H1, slept_stepF. cbn [gap eps].
+  apply wait_sleeps_iff. exact He.
+Qed.
+
+(* a call that finds its file never sleeps and never touches the limiter *)
+Theorem cache_hit_no_sleep s o id a : need_request (c_fs s) (cache_name o id) (o_ow o) = false ->
+  fst (fetch_one s o id a) = s /\ e_req (snd (fetch_one s o id a)) = false /\ e_slept (snd (fetch_one s o id a)) = 0.
+Proof.
+  intros Hn. destruct (fetch_one_table s o id a) as (Hreq & _ & _ & _ & _ & _ & _ & Hsame & _).
+  rewrite Hn in *. split; [apply Hsame; reflexivity|]. split; [exact Hreq|].
+  unfold fetch_one. rewrite Hn. reflexivity.
+Qed.
 
 (* non-vacuity: the same get_seq call twice with a cache directory - one request, then a hit *)
 Definition w_op : op :=
